@@ -72,6 +72,7 @@ var (
 	flagNoReplay = flag.Bool("no-replay", false, "skip native replay of counterexamples")
 	flagParams  = flag.String("params", "", "override params: N=2,L=3")
 	flagDump    = flag.String("dump", "", "dump SSA of function (debug)")
+	flagReplayFile = flag.String("replay-file", "", "re-run a recorded counterexample natively against /repo")
 	flagTimeLimit = flag.Int("timelimit", 0, "per-entry exploration time limit in seconds (0: registry value or 900)")
 )
 
@@ -88,6 +89,23 @@ func main() {
 	if *flagProp == "" {
 		fmt.Fprintln(os.Stderr, "usage: gosym -property Cxx [-tier quick|thorough]")
 		os.Exit(2)
+	}
+	if *flagReplayFile != "" {
+		b, err := os.ReadFile(*flagReplayFile)
+		if err != nil {
+			fatal(err)
+		}
+		var rec replayRec
+		if err := json.Unmarshal(b, &rec); err != nil {
+			fatal(err)
+		}
+		st, out := nativeReplay(&rec, *flagReplayFile, 10)
+		fmt.Printf("replay of %s (%s): %s\n%s\n", rec.Label, rec.Entry, st, out)
+		if strings.HasPrefix(st, "reproduced") {
+			fmt.Printf("VIOLATION property=%s replay=%s\n", *flagProp, *flagReplayFile)
+			os.Exit(1)
+		}
+		os.Exit(0)
 	}
 	rc := runProperty(*flagProp, *flagTier)
 	if *flagProf != "" {
